@@ -1706,3 +1706,32 @@ Proof.
     + pose proof (forest_kept_rename c Lc PL EL bsr wsr usr HB HW HU Ec bpr gpr HE HBP HGP e um s Hc0 Hn0 Hcl0 HF a b0 Hp) as H.
       destruct (run_command e c um (CRename a b0) s) as [[r| | | |] s']; try discriminate. exact H.
 Qed.
+
+(* ------------------------------------------------------------------ the frame lemma *)
+(* A fresh FindLayers depends only on the names directly under the layers directory and on what
+   stat / read of their layerconfig files return. *)
+Definition cfg_file (c : cfgT) (f : fsT) (n : bytes) : option bytes :=
+  let p := pathjoin [layer_path c n; D_LayerconfigFile] in if is_file f p then read_file f p else None.
+Lemma load_layer_cfg_file c f f' n : cfg_file c f n = cfg_file c f' n -> load_layer c f n = load_layer c f' n.
+Proof. unfold cfg_file, load_layer. cbv zeta. intros ->. reflexivity. Qed.
+Theorem frame_lookup c f f' :
+  (forall n, memb n (children f (c_layers c)) = memb n (children f' (c_layers c))) ->
+  (forall n, legal_name n = true -> cfg_file c f n = cfg_file c f' n) ->
+  forall n, lm_get (read_layer_files c f) n = lm_get (read_layer_files c f') n.
+Proof.
+  intros H1 H2 n. rewrite !rlf_get, H1. destruct (legal_name n) eqn:E; [|now rewrite !andb_false_r].
+  rewrite (load_layer_cfg_file c f f' n (H2 n E)). reflexivity.
+Qed.
+Theorem frame_forest_ok c f f' :
+  (forall n, memb n (children f (c_layers c)) = memb n (children f' (c_layers c))) ->
+  (forall n, legal_name n = true -> cfg_file c f n = cfg_file c f' n) ->
+  C02.forest_ok c f = C02.forest_ok c f'.
+Proof.
+  intros H1 H2. pose proof (frame_lookup c f f' H1 H2) as HL.
+  assert (E : forall x, G c f x = G c f' x) by (intros x; unfold G, g_of; now rewrite HL).
+  destruct (C02.forest_ok c f) eqn:A, (C02.forest_ok c f') eqn:B; try reflexivity.
+  - apply forest_ok_iff in A. assert (C02.forest_ok c f' = true); [|congruence].
+    apply forest_ok_iff. eapply gforest_ext; [exact E|exact A].
+  - apply forest_ok_iff in B. assert (C02.forest_ok c f = true); [|congruence].
+    apply forest_ok_iff. eapply gforest_ext; [intros x; symmetry; apply E|exact B].
+Qed.
